@@ -148,6 +148,10 @@ package mqtt
 //@        evArg[uint16]("mapstore:map<uint16,chan *pktSubAck>", 0, 1) == evRet[uint16]("(*BaseClient).newID", 0, 0) &&
 //@        fresh(evArg[chan *pktSubAck]("mapstore:map<uint16,chan *pktSubAck>", 0, 2))
 //@   ensures[C07] order: evCount("(*BaseClient).write") == 1 ==> evIndex("mapstore:map<uint16,chan *pktSubAck>", 0) < evIndex("(*BaseClient).write", 0)
+//@   ensures[C05,C07,C15] wire: evCount("(*BaseClient).write") == 1 ==> evCount("(*pktSubscribe).Pack") == 1 &&
+//@        evArg[*pktSubscribe]("(*pktSubscribe).Pack", 0, 0).ID == evArg[uint16]("mapstore:map<uint16,chan *pktSubAck>", 0, 1) &&
+//@        sameSlice(evArg[*pktSubscribe]("(*pktSubscribe).Pack", 0, 0).Subscriptions, subs) &&
+//@        seqEq(evBytes("(*BaseClient).write", 0, 1), seqOf(evRet[[]byte]("(*pktSubscribe).Pack", 0, 0)))
 //@   ensures[C07,C11] nil_only_acked: result1 == nil ==> evCount("select") == 1 && evRet[int]("select", 0, 0) == 2 &&
 //@        evArg[chan *pktSubAck]("select", 0, 2) == evArg[chan *pktSubAck]("mapstore:map<uint16,chan *pktSubAck>", 0, 2) &&
 //@        evIndex("(*BaseClient).write", 0) < evIndex("select", 0)
@@ -185,6 +189,10 @@ package mqtt
 //@        evArg[uint16]("mapstore:map<uint16,chan *pktUnsubAck>", 0, 1) == evRet[uint16]("(*BaseClient).newID", 0, 0) &&
 //@        fresh(evArg[chan *pktUnsubAck]("mapstore:map<uint16,chan *pktUnsubAck>", 0, 2))
 //@   ensures[C07] order: evCount("(*BaseClient).write") == 1 ==> evIndex("mapstore:map<uint16,chan *pktUnsubAck>", 0) < evIndex("(*BaseClient).write", 0)
+//@   ensures[C05,C07,C15] wire: evCount("(*BaseClient).write") == 1 ==> evCount("(*pktUnsubscribe).Pack") == 1 &&
+//@        evArg[*pktUnsubscribe]("(*pktUnsubscribe).Pack", 0, 0).ID == evArg[uint16]("mapstore:map<uint16,chan *pktUnsubAck>", 0, 1) &&
+//@        sameSlice(evArg[*pktUnsubscribe]("(*pktUnsubscribe).Pack", 0, 0).Topics, subs) &&
+//@        seqEq(evBytes("(*BaseClient).write", 0, 1), seqOf(evRet[[]byte]("(*pktUnsubscribe).Pack", 0, 0)))
 //@   ensures[C07,C11] nil_only_acked: result == nil ==> evCount("select") == 1 && evRet[int]("select", 0, 0) == 2 &&
 //@        evArg[chan *pktUnsubAck]("select", 0, 2) == evArg[chan *pktUnsubAck]("mapstore:map<uint16,chan *pktUnsubAck>", 0, 2) &&
 //@        evIndex("(*BaseClient).write", 0) < evIndex("select", 0)
